@@ -41,7 +41,8 @@ RULE = ('operation scripts over 1..4 registers holding frequent_items_sketch<uin
         'after and between updates: every getter for tracked, '
         'purged and never-seen items, full dumps, get_frequent_items of both error types with default and explicit thresholds '
         '(0, 1, maximum error - 1, maximum error, maximum error + 1, large) on sketches in estimation mode; non-trivial = more distinct items than the map capacity (purges happen) or a merge '
-        'or a round trip')
+        'or a round trip; fixed cases: merges into and from a sketch whose counters were all purged (same / different lg_max, lvalue / rvalue, '
+        'non-empty, purged-empty and exact-mode operands) followed by the getters for items of both histories')
 TRUSTED = ['hash functors are defined in harness/drv_fi.cpp and modelled identically in coq/FiDefs.v (user_hash); fmix64 from coq/Murmur3.v',
            'std::nth_element postcondition (element at n/2 of the sorted sample) and std::sort (a permutation sorted by the comparator)',
            'serde<uint64_t> / serde<std::string> byte formats (8 bytes LE; u32 length + bytes) as modelled in FiDefs.ser_item',
@@ -249,9 +250,28 @@ def fixed_cases():
     c6 = [[1, 0, 0, 3, 3]] + [[2, 0, 50 if i % 9 == 0 else 1 + i % 3, 0 if i % 9 == 0 else 1 + i % 40] for i in range(200)] + \
          [[5, 0]] + [[6, 0, et, has, thr] for et in (1, 0) for has, thr in ((1, 0), (1, 1), (2, -1), (2, -3), (2, 0), (2, 1), (0, 0))] + \
          [[3, 0, 0, 0], [3, 0, 0, 7]]
+    # merges INTO a target whose counters were all purged (capacity + 1 distinct unit weights: total and offset non-zero, 0 active)
+    pe = []
+    for kind in (0, 2):
+        for lgt, lgs in ((3, 3), (4, 4), (3, 5), (4, 3)):
+            capt = (1 << lgt) * 3 // 4; caps = (1 << lgs) * 3 // 4
+            wipe_t = [[2, 0, 1] + mk_item(kind, i) for i in range(capt + 1)]
+            sources = dict(nonempty=[[2, 1, 1 + i % 4] + mk_item(kind, 20 + i % (2 * caps)) for i in range(5 * caps)] + [[2, 1, 40] + mk_item(kind, 3)],
+                           purged=[[2, 1, 1] + mk_item(kind, 30 + i) for i in range(caps + 1)],
+                           exact=[[2, 1, 2 + i] + mk_item(kind, 2 * i) for i in range(min(4, caps))])
+            for sname, feed in sorted(sources.items()):
+                for mop in (4, 14):
+                    ops = [[1, 0, kind, lgt, 3]] + wipe_t + [[5, 0], [1, 1, kind, lgs, 3]] + feed + [[5, 1], [mop, 0, 1], [5, 0]]
+                    ops += [[3, 0, 0] + mk_item(kind, i) for i in list(range(0, capt + 1, 2)) + [3, 20, 21, 30, 31, 2 * caps + 19, 10**6]]
+                    ops += [[6, 0, 1, 0, 0], [6, 0, 0, 0, 0], [6, 0, 1, 2, 0], [6, 0, 0, 1, 0]]
+                    # and the other direction on fresh registers: the purged-empty sketch as the source (the repaired defect)
+                    ops += [[1, 2, kind, lgt, 3]] + [[2, 2, 1] + mk_item(kind, i) for i in range(capt + 1)] + [[mop, 1, 2], [5, 1]]
+                    ops += [[3, 1, 0] + mk_item(kind, i) for i in (0, 1, 3, 20, 30)] + [[6, 1, 1, 0, 0], [6, 1, 0, 0, 0]]
+                    pe.append(dict(id='fxpe%d_%d_%d_%s_%d' % (kind, lgt, lgs, sname, mop), ops=ops,
+                                   tags=['merge-into-purged-empty', sname, 'same-lg-max' if lgt == lgs else 'different-lg-max']))
     tags = [['finding-nfn-threshold'], ['merge-purged-empty'], ['finding-roundtrip-purged-empty'], ['finding-eps-mixed-sizes'],
             ['fixed-strings'], ['fixed-cluster-merge'], ['fixed-nfn-thresholds-estimation-mode']]
-    return [dict(id='fx%d' % i, ops=c, tags=tags[i]) for i, c in enumerate([c0, c1, c2, c3, c4, c5, c6])]
+    return [dict(id='fx%d' % i, ops=c, tags=tags[i]) for i, c in enumerate([c0, c1, c2, c3, c4, c5, c6])] + pe
 
 def gen(rng, tier):
     n = 140 if tier == 'quick' else 600
